@@ -1,7 +1,6 @@
 package main
 
 import (
-	"time"
 	"fmt"
 	"go/ast"
 	"go/constant"
@@ -10,6 +9,7 @@ import (
 	"math/big"
 	"sort"
 	"strings"
+	"time"
 
 	"golang.org/x/tools/go/ssa"
 )
@@ -45,15 +45,15 @@ type loopInfo struct {
 }
 
 type frame struct {
-	fn      *ssa.Function
-	regs    map[ssa.Value]Value
-	defers  []deferred
-	parent  *frame
-	spec    *FuncSpec
-	retK    func(st *State, res []Value)
-	panicK  func(st *State)
-	depth   int
-	open    map[*ssa.BasicBlock]*openLoop
+	fn        *ssa.Function
+	regs      map[ssa.Value]Value
+	defers    []deferred
+	parent    *frame
+	spec      *FuncSpec
+	retK      func(st *State, res []Value)
+	panicK    func(st *State)
+	depth     int
+	open      map[*ssa.BasicBlock]*openLoop
 	inRecover bool
 }
 
@@ -77,36 +77,36 @@ func (f *frame) clone() *frame {
 
 // FuncVC generates the verification conditions of one function.
 type FuncVC struct {
-	w         *World
-	fn        *ssa.Function
-	spec      *FuncSpec
-	sc        *Script
-	bv        bool
-	heapSorts map[string]Sort
-	strLits   map[string]Term
-	strOrder  []string
-	closures  map[string]*ClosureVal
-	obls      []*Obligation
-	loops     map[*ssa.Function]map[*ssa.BasicBlock]*loopInfo
-	entry     *State
-	paths     int
-	props     []string
-	counts    map[string]int
-	warnings  []string
-	trusted   map[string]bool // trusted contracts / unspecified callees used
-	axioms    []axiomT
-	maxPaths  int
-	cur       *frame // frame of the state being executed (set by exec functions)
-	exits     int
-	namedOnce map[string]bool
-	freshRefs map[string]bool
-	implFacts []Term
-	lastLess  string
-	fieldInvs map[string][]*FieldInv
-	specClosure *ssa.Function // specialisation: the function-typed parameter is this closure
+	w              *World
+	fn             *ssa.Function
+	spec           *FuncSpec
+	sc             *Script
+	bv             bool
+	heapSorts      map[string]Sort
+	strLits        map[string]Term
+	strOrder       []string
+	closures       map[string]*ClosureVal
+	obls           []*Obligation
+	loops          map[*ssa.Function]map[*ssa.BasicBlock]*loopInfo
+	entry          *State
+	paths          int
+	props          []string
+	counts         map[string]int
+	warnings       []string
+	trusted        map[string]bool // trusted contracts / unspecified callees used
+	axioms         []axiomT
+	maxPaths       int
+	cur            *frame // frame of the state being executed (set by exec functions)
+	exits          int
+	namedOnce      map[string]bool
+	freshRefs      map[string]bool
+	implFacts      []Term
+	lastLess       string
+	fieldInvs      map[string][]*FieldInv
+	specClosure    *ssa.Function // specialisation: the function-typed parameter is this closure
 	specClosureVal *ClosureVal
-	curSelf *Term // the function value being called through a function-type contract
-	started time.Time
+	curSelf        *Term // the function value being called through a function-type contract
+	started        time.Time
 }
 
 type axiomT struct {
